@@ -28,35 +28,7 @@ def run(chk, repo):
 
     # ------------------------------------------------------------------ a
     chk.rule('C12.a', 'R-KEYS: lookup key == digest parameters; computed == registered', 7)
-    js = repo.func('params:CleavageParams.jsonfy')
-    pool = repo.func('aa.AminoAcidSeqDict:AminoAcidSeqDict.create_unique_peptide_pool')
-    chk.uses(js, pool)
-    base = None
-    graph = None
-    for n in walk_no_nested(js.node):
-        if isinstance(n, ast.Assign) and unparse(n.targets[0]) == 'data' and isinstance(n.value, ast.Dict):
-            base = {k.value: unparse(v) for k, v in zip(n.value.keys, n.value.values)}
-        if isinstance(n, ast.If) and unparse(n.test) == 'graph_params':
-            for c in G.find_calls(n, 'update'):
-                if c.args and isinstance(c.args[0], ast.Dict):
-                    graph = [k.value for k in c.args[0].keys]
-    dig = [p for p in pool.params() if p not in ('self', 'anno')]
-    want = {('enzyme' if p == 'rule' else p) for p in dig}
-    chk.ob('C12.a', 'base key set == parameters of create_unique_peptide_pool (rule->enzyme)', js.where,
-           base is not None and set(base) == want and all(v == f"self.{k}" for k, v in base.items()),
-           f"lookup key {sorted(base or {})} vs digest parameters {sorted(want)}: a parameter that changes the pool is not part of the key "
-           "(pools built with other parameters are returned) or a key is not read from its own attribute", key=js.qual + '::base-keys', fn=js.qual)
-    chk.ob('C12.a', 'graph-only knobs are excluded from the lookup key', js.where,
-           graph is not None and not (set(graph) & want) and len(graph) == 4,
-           f"graph keys {graph}", key=js.qual + '::graph-keys', fn=js.qual)
-    gp = repo.func(IDX + 'IndexMetadata.get_canonical_pool')
-    chk.uses(gp)
-    txt = [norm_stmt(s) for s in ast.walk(gp.node) if isinstance(s, (ast.Assign, ast.If, ast.Return))]
-    ok = 'this = cleavage_params.jsonfy(graph_params=False)' in txt and 'that = pool.cleavage_params.jsonfy(graph_params=False)' in txt \
-        and 'if this == that' in txt and 'return pool' in txt and 'return None' in txt
-    chk.ob('C12.a', 'lookup compares the full key dictionaries of request and entry', gp.where, ok,
-           'get_canonical_pool no longer compares the complete jsonfy(graph_params=False) dictionaries (partial key => pools of other parameter sets match)',
-           key=gp.qual + '::full-compare', fn=gp.qual)
+    dig = lookup_key_rules(chk, repo, 'C12.a')
     lm = repo.func(IDX + 'IndexDir.load_metadata')
     chk.uses(lm)
     chk.ob('C12.a', 'metadata reload rebuilds CleavageParams from the stored key', lm.where,
@@ -258,3 +230,37 @@ def fstr(node):
                 out += '{' + unparse(v.value) + spec + '}'
         return out
     return unparse(node)
+
+
+def lookup_key_rules(chk, repo, rid):
+    """Pool lookup key == digest parameters; lookup compares complete keys (shared with C04)."""
+    js = repo.func('params:CleavageParams.jsonfy')
+    pool = repo.func('aa.AminoAcidSeqDict:AminoAcidSeqDict.create_unique_peptide_pool')
+    chk.uses(js, pool)
+    base = None
+    graph = None
+    for n in walk_no_nested(js.node):
+        if isinstance(n, ast.Assign) and unparse(n.targets[0]) == 'data' and isinstance(n.value, ast.Dict):
+            base = {k.value: unparse(v) for k, v in zip(n.value.keys, n.value.values)}
+        if isinstance(n, ast.If) and unparse(n.test) == 'graph_params':
+            for c in G.find_calls(n, 'update'):
+                if c.args and isinstance(c.args[0], ast.Dict):
+                    graph = [k.value for k in c.args[0].keys]
+    dig = [p for p in pool.params() if p not in ('self', 'anno')]
+    want = {('enzyme' if p == 'rule' else p) for p in dig}
+    chk.ob(rid, 'base key set == parameters of create_unique_peptide_pool (rule->enzyme)', js.where,
+           base is not None and set(base) == want and all(v == f"self.{k}" for k, v in base.items()),
+           f"lookup key {sorted(base or {})} vs digest parameters {sorted(want)}: a parameter that changes the pool is not part of the key "
+           "(pools built with other parameters are returned) or a key is not read from its own attribute", key=js.qual + '::base-keys', fn=js.qual)
+    chk.ob(rid, 'graph-only knobs are excluded from the lookup key', js.where,
+           graph is not None and not (set(graph) & want) and len(graph) == 4,
+           f"graph keys {graph}", key=js.qual + '::graph-keys', fn=js.qual)
+    gp = repo.func(IDX + 'IndexMetadata.get_canonical_pool')
+    chk.uses(gp)
+    txt = [norm_stmt(s) for s in ast.walk(gp.node) if isinstance(s, (ast.Assign, ast.If, ast.Return))]
+    ok = 'this = cleavage_params.jsonfy(graph_params=False)' in txt and 'that = pool.cleavage_params.jsonfy(graph_params=False)' in txt \
+        and 'if this == that' in txt and 'return pool' in txt and 'return None' in txt
+    chk.ob(rid, 'lookup compares the full key dictionaries of request and entry', gp.where, ok,
+           'get_canonical_pool no longer compares the complete jsonfy(graph_params=False) dictionaries (partial key => pools of other parameter sets match)',
+           key=gp.qual + '::full-compare', fn=gp.qual)
+    return dig
